@@ -139,12 +139,33 @@ def tick_logging():
         set_logging(False)
 
 
+# ---- the thread's decimal context is ambient state as well: a caller may work at low precision, or trap Inexact.
+# In 'mixed' mode calls into the library cycle through the default context, a 3-digit context and a context that
+# traps Inexact and Rounded; the harness's own arithmetic always runs in the default context.
+import decimal as _dec  # noqa: E402
+
+DECMODE = 'default'
+_DECN = [0]
+DEC_CONTEXTS = {'default': _dec.Context(), 'prec3': _dec.Context(prec=3),
+                'traps': _dec.Context(prec=5, traps=[_dec.Inexact, _dec.Rounded, _dec.InvalidOperation, _dec.DivisionByZero, _dec.Overflow])}
+
+
+def ambient():
+    """context manager for ONE call into the library"""
+    if DECMODE == 'mixed':
+        _DECN[0] += 1
+        name = ('default', 'default', 'prec3', 'default', 'traps')[_DECN[0] % 5]
+    else:
+        name = DECMODE if DECMODE in DEC_CONTEXTS else 'default'
+    return _dec.localcontext(DEC_CONTEXTS[name].copy())
+
+
 def outcome(fn, *args, show=None, limit=3.0):
     """'ok <shown result>' | 'err <class>' | 'hang'"""
     tick_logging()
     try:
         if threading.current_thread() is threading.main_thread():
-            with deadline(limit):
+            with deadline(limit), ambient():
                 res = fn(*args)
         else:
             res = fn(*args)
